@@ -79,7 +79,10 @@ PostScripts == {
 ThB == { Scn("in", 70016, scr, FALSE, PlanB, <<>>, TRUE) : scr \in PostScripts }
 ThC == { Scn("out", 70016, scr, TRUE, PlanB, <<>>, FALSE) : scr \in {HS, HS \o <<M("ping")>>, HS \o <<M("malformed")>>} }
 ThD == { Scn("in", 70016, HS, FALSE, PlanB, iv, TRUE) : iv \in {<<"tx">>, <<"block">>} }
-ThE == { Scn("in", 70016, HS, FALSE, PlanA, <<>>, TRUE) }
+\* two senders with one message each, and one sender with two (pending list, FIFO)
+PlanA2 == [s \in MCSenders |-> IF s = "s1" THEN <<1>> ELSE <<2>>]
+PlanS2 == [s \in MCSenders |-> IF s = "s1" THEN <<1, 2>> ELSE <<>>]
+ThE == { Scn("in", 70016, HS, FALSE, pl, <<>>, TRUE) : pl \in {PlanA2, PlanS2} }
 \* wrong-network / malformed traffic after the handshake, probe ping behind it:
 \* tolerated only on regtest from localhost
 ThF == { OnNet(Scn("in", 70016, HS \o <<M(k), M("ping")>>, FALSE, PlanB, <<>>, TRUE), n, l) :
